@@ -169,6 +169,62 @@ def run_on(fb, chk, tag=""):
                   "AtomicBitmapMmap::new: %s" % "; ".join(sorted(probs)), f.loc())
     else:
         chk.anchor_missing("B3", tag + "AtomicBitmapMmap::new")
+    # ------------------------------------------------------------------ B2: the region-relative wrapper
+    # BitmapMmapRegion forwards (base_address + offset, len) to the log bitmap; a slice starts at base + offset exactly
+    # (byte granularity: the page range of a write is derived from its first and last byte), and installing a new
+    # bitmap replaces the previous one.
+    wrap = [f for f in bitmap_fns if (f.self_adt or "").endswith("::BitmapMmapRegion")]
+    sl = [f for f in wrap if f.name == "slice_at"]
+    if len(sl) == 1:
+        f = sl[0]
+        chk.fn_seen(f)
+        m = must_of(fb, f)
+        okb = False
+        detail = ""
+        for b in f.blocks:
+            for st in b["stmts"]:
+                if st["k"] == "assign" and st["rv"]["k"] == "agg" and (st["rv"].get("adt") or "").endswith("::BitmapMmapRegion"):
+                    d = dict(m.sym.rvalue(st["rv"])[3])
+                    v = d.get("base_address")
+                    detail = show(v)[:80] if v is not None else "?"
+                    if v is not None and v[0] == "call" and v[1] in ("saturating_add", "wrapping_add", "checked_add") and len(v[2]) == 2 or \
+                            (v is not None and v[0] == "bin" and v[1] == "Add"):
+                        a0, a1 = (v[2][0], v[2][1]) if v[0] == "call" else (v[2], v[3])
+                        names = sorted([field_of(a0)[1] or (peel(a0)[0][2] if peel(a0)[0][0] == "param" else "?"),
+                                        field_of(a1)[1] or (peel(a1)[0][2] if peel(a1)[0][0] == "param" else "?")])
+                        okb = names == ["base_address", "offset"]
+        chk.check(okb, "B2", tag + "slice_at:base", "slice base = base_address + offset (byte exact)",
+                  "BitmapMmapRegion::slice_at sets the slice base to %s: a write through the slice is logged relative to a different "
+                  "address than the one it touches (pages at the end of the write can be missed)" % detail, f.loc())
+    else:
+        chk.anchor_missing("B2", tag + "BitmapMmapRegion::slice_at")
+    rp = [f for f in wrap if f.name == "replace" and (f.trait or "").endswith("BitmapReplace")]
+    if len(rp) == 1:
+        f = rp[0]
+        chk.fn_seen(f)
+        m = must_of(fb, f)
+        good = False
+        seen = []
+        for bb, t in f.calls():
+            c = callee_of(t)
+            if c is None or not (resolved(c).get("self_adt") or c.get("self_adt") or "").endswith("option::Option"):
+                continue
+            seen.append(c.get("name"))
+            if c.get("name") in ("replace", "insert") and any(x[0] == "param" and x[2] == "bitmap" for a in m.sym.arg_terms(bb)[1:] for x in subterms(a)):
+                good = True
+        for w in field_writes(f):
+            pass
+        for b in f.blocks:
+            for st in b["stmts"]:
+                if st["k"] == "assign" and st["lhs"]["p"] and st["rv"]["k"] == "agg" and st["rv"].get("variant") == "Some":
+                    v = m.sym.rvalue(st["rv"])
+                    if any(x[0] == "param" and x[2] == "bitmap" for x in subterms(v)):
+                        good = True
+        chk.check(good, "B4", tag + "replace:overwrites", "the new bitmap replaces the installed one (Option::replace / = Some(..))",
+                  "BitmapMmapRegion::replace does not overwrite an already installed bitmap (Option methods used: %s): after a second "
+                  "SET_LOG_BASE the region keeps logging into the superseded log" % sorted(set(seen)), f.loc())
+    else:
+        chk.anchor_missing("B4", tag + "BitmapMmapRegion::replace")
     # ------------------------------------------------------------------ B4 / B5
     ch = daemon.control_handlers(fb)
     f = ch.get("set_log_base")
